@@ -44,6 +44,12 @@ def contigIdx (f : Feat) : List Int :=
   | [] => []
   | r => irange (mapStart r) (mapEnd r)
 
+/-- the contiguous form as a list of absolute plus-strand positions in reading order (|step| = 1), and whether the
+letters come out complemented — the analogue of `slicePositions` -/
+def contigPositions (v : View) (f : Feat) : List Int × Bool :=
+  let ps := (contigIdx f).map (viewPos v)
+  (if f.reversed then ps.reverse else ps, (decide (v.step < 0)) != f.reversed)
+
 /-- the residues `feature.get_slice(allow_gaps=True)` returns on a sequence: the contiguous segment, and — like the
 spliced form — `_do_seq_slice` reverse-complements it when the feature is reversed relative to the view -/
 def getSliceContig (comp : Char → Char) (s : Seq) (f : Feat) : List Char :=
